@@ -26,9 +26,9 @@ META = dict(
                 "phase. (g) out-of-place functions leave a value snapshot of their input unchanged.",
     bounds=dict(quick="circuits of <=4 gates over <=3 used qubits (index patterns {0,1,2}, {0,2,3}, {1,8}, {8,1,3}; fixed "
                       "n_qubits larger than used or none), fixed core + seeded sample; <=3 symbolic angles in "
-                      "[-4pi, 4pi] ((c): [-5pi, 5pi], threshold in (0, 0.1]); Clifford angles k*pi/2, |k|<=8",
-                thorough="same bounds, larger seeded sample (every invertible gate kind in every pass), angles in [-6pi, 6pi] "
-                         "for the single-gate obligations"),
+                      "[-4pi, 4pi] ((c): [-5pi, 5pi], threshold in (0, 0.1]; (f): a, d in [-3pi, 3pi], b = a + d); "
+                      "Clifford angles k*pi/2, |k|<=8",
+                thorough="same bounds, larger seeded sample (80 inverse, 150 pass, 80 structural shapes); (f): a, d in [-4pi, 4pi]"),
     outside=["IEEE rounding",
              "(b): inputs where two reduced parameters round to the same 7-digit value without being equal "
              "(Gate.__eq__ identifies them; the deviation is below 1e-7 and is covered per gate pair by (f))",
@@ -413,7 +413,7 @@ def shapes(tier, seed):
         canary=True)
 
     # ---- (b) passes
-    pol = dict(mod_range=(-3, 3), threshold="assume")
+    pol = dict(mod_range=(-6, 6), threshold="assume")      # sums of up to 3 angles in [-4pi, 4pi]
     core_pass = [
         [("RX", (0,), None, "a"), ("RX", (0,), None, "b")],
         [("RZ", (1,), None, "a"), ("H", (0,), None, None), ("RZ", (1,), None, "b")],                 # interleaved on another qubit
@@ -550,7 +550,7 @@ def shapes(tier, seed):
     im = [("RX", (0,), None, "a"), ("RX", (0,), None, "b"), ("H", (1,), None, None), ("H", (1,), None, None), ]
     im2 = [("CRZ", (8,), (1,), "a"), ("CRZ", (8,), (1,), 0.015625), ("X", (3,), None, None)]
     for op in ("remove_small_rotations", "merge_rotations", "remove_redundant_gates", "simplify"):
-        add(f"immut/{op}/dense", h_immut, dict(op=op, spec=im, n_qubits=3), policy=dict(mod_range=(-3, 3), threshold="fork"), max_paths=400)
-        add(f"immut/{op}/far", h_immut, dict(op=op, spec=im2, n_qubits=None), policy=dict(mod_range=(-3, 3), threshold="fork"), max_paths=400)
+        add(f"immut/{op}/dense", h_immut, dict(op=op, spec=im, n_qubits=3), policy=dict(mod_range=(-5, 5), threshold="fork"), max_paths=400)
+        add(f"immut/{op}/far", h_immut, dict(op=op, spec=im2, n_qubits=None), policy=dict(mod_range=(-5, 5), threshold="fork"), max_paths=400)
     add("canary/immut/trim", h_immut_canary, dict(spec=s1, n_qubits=None), canary=True)
     return out
